@@ -574,10 +574,36 @@ def owned_container_copy_case(case):
     return dict(reproduced=bool(violated), violated=violated[:8])
 
 
+def tuple_default_case(case):
+    """C10: the default of a Tuple with a member that needs a per-instance default is computed per instance: mutating it
+    through one instance is invisible to other instances, to later instances and to the member trait's own default."""
+    from traits.api import HasTraits, Tuple, List, Int, Str, Dict
+    violated = []
+    shapes = [("Tuple(List(Int), Int)", lambda: Tuple(List(Int), Int), 0), ("Tuple(Int, List(Int))", lambda: Tuple(Int, List(Int)), 1),
+              ("Tuple(Str, List(Int), Int, Str)", lambda: Tuple(Str, List(Int), Int, Str), 1), ("Tuple(List(Int), List(Int), Int)", lambda: Tuple(List(Int), List(Int), Int), 1),
+              ("Tuple(Dict(Str, Int), Int)", lambda: Tuple(Dict(Str, Int), Int), 0), ("Tuple(List(Int),)", lambda: Tuple(List(Int)), 0)]
+    for label, mk, pos in shapes:
+        cls = type("T", (HasTraits,), {"entry": mk()})
+        a, b = cls(), cls()
+        inner = a.entry[pos]
+        if isinstance(inner, dict):
+            inner["k"] = 1
+        else:
+            inner.append(1)
+        if b.entry[pos]:
+            violated.append("%s: after mutating a's default, another instance's default reads %r" % (label, b.entry))
+        if a.entry[pos] is b.entry[pos]:
+            violated.append("%s: two instances share one default container object" % label)
+        c = cls()
+        if c.entry[pos]:
+            violated.append("%s: a fresh instance's default reads %r" % (label, c.entry))
+    return dict(reproduced=bool(violated), violated=violated[:8])
+
+
 def main():
     case = json.loads(sys.stdin.read())
     out = {"get_trait": get_trait_case, "clone": clone_case, "prefix_trait_unhashable": prefix_trait_unhashable_case,
-           "prefix_cache_inherited": prefix_cache_inherited_case, "copy_traits": copy_traits_case, "default_isolation": default_isolation_case, "subclass_cached_getter": subclass_cached_getter_case, "prefix_order": prefix_order_case, "class_state_untouched": class_state_untouched_case, "remove_trait": remove_trait_case, "owned_container_copy": owned_container_copy_case}[case["family"]](case)
+           "prefix_cache_inherited": prefix_cache_inherited_case, "copy_traits": copy_traits_case, "default_isolation": default_isolation_case, "subclass_cached_getter": subclass_cached_getter_case, "prefix_order": prefix_order_case, "class_state_untouched": class_state_untouched_case, "remove_trait": remove_trait_case, "owned_container_copy": owned_container_copy_case, "tuple_default": tuple_default_case}[case["family"]](case)
     print(json.dumps(out, default=repr))
 
 
